@@ -169,11 +169,18 @@ pub mod csv {
         dir_path.join(fname_only)
     }
 
-    fn open_rates_csv_file_write(
+    // The rates are first written to this file, which is then renamed over the real
+    // one. The reader never looks at it.
+    fn rates_csv_tmp_file_path(dir_path: &std::path::Path, year: u32) -> PathBuf {
+        let fname_only = format!("rates-{}.csv.tmp", year);
+        dir_path.join(fname_only)
+    }
+
+    fn open_rates_csv_tmp_file_write(
         dir_path: &std::path::Path,
         year: u32,
     ) -> Result<File, SError> {
-        let file_path = rates_csv_file_path(dir_path, year);
+        let file_path = rates_csv_tmp_file_path(dir_path, year);
         crate::util::os::mk_writable_dir(dir_path).map_err(|e| e.to_string())?;
         File::create(file_path).map_err(|e| e.to_string())
     }
@@ -207,7 +214,12 @@ pub mod csv {
                     "<no path ???>"
                 }
             );
-            let file = open_rates_csv_file_write(&self.dir_path, year)?;
+            // Never write over the live file in place. If we are killed (or the power
+            // goes) midway, that leaves a file which ends inside a row, and a row cut
+            // short still parses: "2022-03-15,1.2" from "2022-03-15,1.2001". Write a
+            // temporary file, make sure it is on disk, and only then rename it over the
+            // live file, which therefore is always either the old or the new content.
+            let file = open_rates_csv_tmp_file_write(&self.dir_path, year)?;
 
             // CSV file of date,exchange_rate
 
@@ -220,7 +232,17 @@ pub mod csv {
                     ])
                     .map_err(|e| e.to_string())?;
             }
-            let r = csv_w.flush().map_err(|e| e.to_string());
+            let r = csv_w
+                .into_inner()
+                .map_err(|e| e.to_string())
+                .and_then(|file| file.sync_all().map_err(|e| e.to_string()))
+                .and_then(|_| {
+                    std::fs::rename(
+                        rates_csv_tmp_file_path(&self.dir_path, year),
+                        rates_csv_file_path(&self.dir_path, year),
+                    )
+                    .map_err(|e| e.to_string())
+                });
             if r.is_ok() {
                 trace!("CsvRatesCache::write_rates flushed ok");
             } else {
